@@ -6,6 +6,7 @@ import (
 	"fmt"
 	"go/types"
 	"os"
+	"regexp"
 	"sort"
 	"strings"
 
@@ -605,6 +606,10 @@ func (x *Exec) applyContract(fr *Frame, st *State, sp *FuncSpec, sig *types.Sign
 	}
 	env.Cur = st
 	for _, e := range sp.Ensures {
+		if mentionsGiven(sp, e.Src) {
+			// stated for the contract's `given` parameters: proved in the callee's unit for all values, not used here
+			continue
+		}
 		t := x.evalBool(e.E, env)
 		if os.Getenv("GOVC_DEBUG") != "" && !x.dry {
 			fmt.Printf("  assume %s.%s at %s: trivial=%v size=%d\n", calleeLabel(sp), e.Label, site, isTrue(t), len(t.String()))
@@ -729,3 +734,19 @@ func (x *Exec) strContains(a, b Val) (Val, bool) {
 }
 
 var _ = sort.Strings
+
+var wordRe = regexp.MustCompile(`[A-Za-z_$][A-Za-z0-9_$]*`)
+
+func mentionsGiven(sp *FuncSpec, src string) bool {
+	if len(sp.Given) == 0 {
+		return false
+	}
+	for _, w := range wordRe.FindAllString(src, -1) {
+		for _, g := range sp.Given {
+			if w == g {
+				return true
+			}
+		}
+	}
+	return false
+}
